@@ -231,3 +231,81 @@ Example C03_nonvacuous :
   fst (step c03_w (OSetData 0 1 None (Some (DInt 30)) (Some true))) = Err EUnique /\    (* set_data with clones *)
   fst (step c03_w (OFromDict 0 5 [DI (c03_dd 7) None []; DI (c03_dd 7) None []])) = Err EUnique. (* from_dict *)
 Proof. vm_compute. repeat split. Qed.
+
+(* ====================================================================================== *)
+(* The route "loading a file" (Mut/MachineLoad.v: [op_load] = the loop of Tree._from_list /
+   TypedTree._from_list over the node list of the file; every entry goes through add(), i.e. through the
+   uniqueness check of Tree._register).  The harness runs hand-made and generated node lists through
+   Tree.load, the file-level collision oracle and this model (part [load] of harness/props/C03.py). *)
+From NT Require Import MachineLoad MachineLoadProofs.
+
+(* two entries with one data_id under one parent, whatever lies between them: the first (a data entry or a
+   reference) puts a node with data_id [id] below the parent with index p, a later data entry names the same
+   parent index and has the same data_id -> UniqueConstraintError, and no tree is added *)
+Theorem C03_load_refused : forall w ty pre e1 mid p d ex k rest m0 w0 t0 n1 wa m2 w2 t2 id,
+  let ti := length (trees w) in
+  load_go ti pre (W (trees w ++ [TS [] [] [] ty None]) (next w)) [0] = (Ok m0, w0) -> WFw w ->
+  get_tree w0 ti = Some t0 -> load_entry ti w0 m0 e1 = (Ok [n1], wa) -> entry_par e1 = p -> entry_did t0 m0 e1 = Some id ->
+  load_go ti mid wa (m0 ++ [n1]) = (Ok m2, w2) -> get_tree w2 ti = Some t2 ->
+  (match ex with Some x => Some x | None => calc_id (calc t2) d end) = Some id ->
+  fst (op_load w ty (pre ++ e1 :: mid ++ LData p d ex k :: rest)) = Err EUnique /\
+  trees (snd (op_load w ty (pre ++ e1 :: mid ++ LData p d ex k :: rest))) = trees w.
+Proof. exact load_refused_general. Qed.
+Print Assumptions C03_load_refused.
+
+(* in terms of the route-independent collision predicate: the loop reaches an entry whose parent already has
+   a child with the entry's data_id *)
+Theorem C03_load_refused_entry : forall w ty pre p d ex k rest m1 w1 t P id,
+  load_go (length (trees w)) pre (W (trees w ++ [TS [] [] [] ty None]) (next w)) [0] = (Ok m1, w1) ->
+  WFw w1 -> get_tree w1 (length (trees w)) = Some t -> nth_error m1 p = Some P ->
+  (match ex with Some e => Some e | None => calc_id (calc t) d end) = Some id ->
+  sibling_with (forest_of t) P id 0 ->
+  fst (op_load w ty (pre ++ LData p d ex k :: rest)) = Err EUnique /\
+  trees (snd (op_load w ty (pre ++ LData p d ex k :: rest))) = trees w.
+Proof. exact load_refused_data. Qed.
+Print Assumptions C03_load_refused_entry.
+
+(* a reference entry (a clone of an earlier entry) below a parent that already holds that data_id *)
+Theorem C03_load_refused_reference : forall w ty pre p r rest m1 w1 t P src s,
+  load_go (length (trees w)) pre (W (trees w ++ [TS [] [] [] ty None]) (next w)) [0] = (Ok m1, w1) ->
+  WFw w1 -> get_tree w1 (length (trees w)) = Some t -> nth_error m1 p = Some P -> nth_error m1 r = Some src -> src <> 0 ->
+  get_node src (forest_of t) = Some s ->
+  sibling_with (forest_of t) P (rdid s) 0 ->
+  fst (op_load w ty (pre ++ LRef p r :: rest)) = Err EUnique /\
+  trees (snd (op_load w ty (pre ++ LRef p r :: rest))) = trees w.
+Proof. exact load_refused_ref. Qed.
+Print Assumptions C03_load_refused_reference.
+
+(* the canonical bad file, closed form: two top-level entries with the same data / explicit data_id *)
+Theorem C03_load_refused_pair : forall w ty d ex k k' rest, WFw w ->
+  fst (op_load w ty (LData 0 d ex k :: LData 0 d ex k' :: rest)) = Err EUnique /\
+  trees (snd (op_load w ty (LData 0 d ex k :: LData 0 d ex k' :: rest))) = trees w.
+Proof. exact load_refused_pair. Qed.
+Print Assumptions C03_load_refused_pair.
+
+(* whatever makes a load fail, no tree is added and the existing trees are exactly as they were; a load that
+   succeeds returns the index of the new tree and leaves the others alone *)
+Theorem C03_load_failed_adds_no_tree : forall w ty doc,
+  (forall tj, tj < length (trees w) -> get_tree (snd (op_load w ty doc)) tj = get_tree w tj) /\
+  (forall e, fst (op_load w ty doc) = Err e -> trees (snd (op_load w ty doc)) = trees w) /\
+  (forall r, fst (op_load w ty doc) = Ok r -> r = [length (trees w)]).
+Proof. exact load_frame. Qed.
+Print Assumptions C03_load_failed_adds_no_tree.
+
+(* the result of a load is sibling-unique like every other state (C01_load_step) *)
+Theorem C03_load_keeps_uniqueness : forall w ty doc t, WFw w -> In t (trees (snd (op_load w ty doc))) -> sib_unique (forest_of t).
+Proof.
+  intros w ty doc t H Ht. assert (X := WFw_step_x w (OLoad ty doc) H). cbn [step_x] in X.
+  apply SU_sib_unique. apply wf_su. exact (proj1 (Forall_forall _ _) (ww_trees _ X) t Ht).
+Qed.
+Print Assumptions C03_load_keeps_uniqueness.
+
+(* the three hand-made files of the corpus, on the model: a / b / a at top level; a > b and a reference to b
+   below a again; a, b and a clone of a below b (must load: D12) *)
+Definition c03_ld (z : Z) : dat := D z z z true [z].
+Example C03_load_nonvacuous :
+  fst (op_load empty_world false [LData 0 (c03_ld 97) None None; LData 0 (c03_ld 98) None None; LData 0 (c03_ld 97) None None]) = Err EUnique /\
+  fst (op_load empty_world false [LData 0 (c03_ld 97) None None; LData 1 (c03_ld 98) None None; LRef 1 2]) = Err EUnique /\
+  fst (op_load empty_world false [LData 0 (c03_ld 97) None None; LData 0 (c03_ld 98) None None; LRef 2 1]) = Ok [0] /\
+  wf_world_b (snd (op_load empty_world false [LData 0 (c03_ld 97) None None; LData 0 (c03_ld 98) None None; LRef 2 1])) = true.
+Proof. vm_compute. repeat split. Qed.
